@@ -90,10 +90,14 @@ def main():
             for cid in checks:
                 t0 = time.time()
                 env = dict(os.environ, ADAPTIX_SRC=f"{root}/src", PYTHONDONTWRITEBYTECODE="1")
-                rc, out = sh(f"/venv/bin/python run_check.py {cid} --tier quick", cwd=scratch, env=env, timeout=3600)
+                env["VERIF_STALL"] = "400"
+                try:
+                    rc, out = sh(f"/venv/bin/python run_check.py {cid} --tier quick", cwd=scratch, env=env, timeout=2400)
+                except subprocess.TimeoutExpired:
+                    rc, out = 3, "check did not finish within 2400 s"
                 viol = [l for l in out.splitlines() if l.startswith("VIOLATION")]
                 what = [l.strip()[6:] for l in out.splitlines() if l.strip().startswith("what:")]
-                verdict = "caught" if rc == 1 and viol else ("FRAMEWORK-ERROR" if rc == 2 else "MISSED")
+                verdict = "caught" if rc == 1 and viol else ("FRAMEWORK-ERROR" if rc == 2 else "TIMEOUT" if rc == 3 else "MISSED")
                 rows.append((name, cid, verdict, (what[0][:160] if what else out.strip()[-160:] if rc == 2 else "")))
                 print(f"{name:32s} {cid} {verdict:8s} {time.time() - t0:5.0f}s  {what[0][:120] if what else ''}", flush=True)
     finally:
